@@ -7,5 +7,5 @@ From Q.Model Require Import Dev.
 Extraction Language OCaml.
 Extraction "../driver/model.ml"
   parse_hdr hdr_features_ok hdr_supported validb safeb leaked undercounted guest_mapping guest_entry stored refs
-  ref_list covered_nonzero overcounted tables_ok refcounts_exact refcounts_safe guest_clusters
+  ref_list covered_nonzero overcounted tables_ok refcounts_exact refcounts_safe guest_clusters copied_refs copied_single
   read_block write discard grow invb mk_state free drefs touches clusters_of.
